@@ -42,6 +42,10 @@ pub struct Fault {
     pub kind: FaultKind,
     pub h: u16,
     pub bit: u32,
+    /// MerkleBit only: the same flip is applied to this many further blocks right after the selected one (a run must
+    /// fail however many blocks are bad - 2, 255, 256, 257, ...)
+    #[serde(default)]
+    pub more: u16,
 }
 
 #[derive(Clone, Debug, Serialize, Deserialize)]
@@ -87,7 +91,7 @@ fn chain_cfg(tier: Tier, faults: bool) -> gen::ChainCfg {
 
 pub fn strategy(tier: Tier, faults: bool) -> BS<Case> {
     let fault = if faults {
-        (prop_oneof![4 => Just(FaultKind::TxBit), 3 => Just(FaultKind::MerkleBit), 3 => Just(FaultKind::PrevBit), 2 => Just(FaultKind::ForeignBlock), 2 => Just(FaultKind::Relinked), 1 => Just(FaultKind::WrongGenesis), 1 => Just(FaultKind::SyntheticGenesis), 1 => Just(FaultKind::GenesisCopy)], any::<u16>(), any::<u32>()).prop_map(|(kind, h, bit)| Some(Fault { kind, h, bit })).boxed()
+        (prop_oneof![4 => Just(FaultKind::TxBit), 3 => Just(FaultKind::MerkleBit), 3 => Just(FaultKind::PrevBit), 2 => Just(FaultKind::ForeignBlock), 2 => Just(FaultKind::Relinked), 1 => Just(FaultKind::WrongGenesis), 1 => Just(FaultKind::SyntheticGenesis), 1 => Just(FaultKind::GenesisCopy)], any::<u16>(), any::<u32>()).prop_map(|(kind, h, bit)| Some(Fault { kind, h, bit, more: 0 })).boxed()
     } else {
         Just(None).boxed()
     };
@@ -189,7 +193,7 @@ pub fn check(c: &Case) -> Verdict {
             match f.kind {
                 FaultKind::MerkleBit => {
                     let (p, b) = flip(bytes, 36, 68, f.bit);
-                    desc = format!("merkle-field byte {} bit {}", p, b);
+                    desc = format!("merkle-field byte {} bit {} (and the same in {} further blocks)", p, b, f.more);
                 }
                 FaultKind::PrevBit => {
                     let (p, b) = flip(bytes, 4, 36, f.bit);
@@ -223,6 +227,16 @@ pub fn check(c: &Case) -> Verdict {
                 }
                 FaultKind::WrongGenesis => desc = "another coin's genesis block at height 0".into(),
                 FaultKind::SyntheticGenesis => desc = "synthetic block at height 0".into(),
+            }
+        }
+    }
+    if let Some(f) = &c.fault {
+        if f.kind == FaultKind::MerkleBit && f.more > 0 {
+            let first = mono(f.h, n);
+            for hi in first + 1..(first + 1 + f.more as usize).min(n) {
+                if let Seg::Blk { bytes, .. } = &mut plan.files[0].segs[hi] {
+                    flip(bytes, 36, 68, f.bit);
+                }
             }
         }
     }
@@ -306,7 +320,7 @@ fn all_flips(seed: u64, ntx: usize) -> Vec<Case> {
     let sel = |idx: usize, of: usize| (((idx as u64) * 65536 + of as u64 - 1) / of as u64) as u16;
     let (h_any, h_prev) = (sel(target, n), sel(target - 1, n - 1));
     assert!(mono(h_any, n) == target && 1 + mono(h_prev, n - 1) == target);
-    let mk = |kind, nbits: usize, k: usize| Case { chain: chain.clone(), start: 0, end: None, fault: Some(Fault { kind, h: match kind { FaultKind::PrevBit => h_prev, _ => h_any }, bit: (((k as u64) << 32) / nbits as u64 + 1).min(u32::MAX as u64) as u32 }), cb: Callback::CsvDump, pause: false };
+    let mk = |kind, nbits: usize, k: usize| Case { chain: chain.clone(), start: 0, end: None, fault: Some(Fault { kind, h: match kind { FaultKind::PrevBit => h_prev, _ => h_any }, bit: (((k as u64) << 32) / nbits as u64 + 1).min(u32::MAX as u64) as u32, more: 0 }), cb: Callback::CsvDump, pause: false };
     for k in 0..256 {
         v.push(mk(FaultKind::MerkleBit, 256, k));
         v.push(mk(FaultKind::PrevBit, 256, k));
@@ -335,6 +349,13 @@ fn run(eng: &Engine, a: &Args) {
         deep.push(Case { chain: wide.clone(), start, end: None, fault: None, cb, pause: false });
     }
     eng.enumerate("merkle-tree-of-depth-17", deep, check);
+    // many bad blocks in one run: the merkle field of N consecutive blocks of a 600-block chain is damaged, N = 2, 255,
+    // 256, 257, 512 - however the tool counts or reports them, the run must fail and leave nothing
+    let scripts: Vec<Vec<u8>> = (0..600usize).map(|i| { let mut s = vec![0x76, 0xa9, 0x14]; s.extend([(i & 0xff) as u8, (i >> 8) as u8].iter().cycle().take(20)); s.extend([0x88, 0xac]); s }).collect();
+    let mut bad = vpmodel::spec::chain_from_scripts(Coin::Bitcoin, &scripts, &[1000, 2500], 1, 1, 0, 1_400_000_000);
+    bad.real_genesis = true;
+    let many: Vec<Case> = [2u16, 255, 256, 257, 512].iter().map(|n| Case { chain: bad.clone(), start: 0, end: None, fault: Some(Fault { kind: FaultKind::MerkleBit, h: 700, bit: 0x1234_5678, more: n - 1 }), cb: Callback::CsvDump, pause: false }).collect();
+    eng.enumerate("many-faulted-blocks", many, check);
     // a verified run that lasts longer than the driver's 10-second status interval (5000 blocks, the tool stopped for
     // 10.5 s after the first one): every later block is still checked against the index record before it
     let scripts: Vec<Vec<u8>> = (0..5000usize).map(|i| { let mut s = vec![0x76, 0xa9, 0x14]; s.extend([(i & 0xff) as u8, (i >> 8) as u8].iter().cycle().take(20)); s.extend([0x88, 0xac]); s }).collect();
@@ -346,7 +367,7 @@ fn run(eng: &Engine, a: &Args) {
 
 fn replay(part: &str, case: serde_json::Value) -> Option<Verdict> {
     match part {
-        "complete" | "faults" | "every-bit-of-one-block" | "merkle-tree-of-depth-17" | "slow-verified-run" => Some(check(&serde_json::from_value(case).ok()?)),
+        "complete" | "faults" | "every-bit-of-one-block" | "merkle-tree-of-depth-17" | "slow-verified-run" | "many-faulted-blocks" => Some(check(&serde_json::from_value(case).ok()?)),
         _ => None,
     }
 }
